@@ -21,9 +21,9 @@ ENCODED = ["twisted.mail.imap4:collapseNestedLists", "twisted.mail.imap4:_quote"
            "twisted.mail.imap4:splitOn", "twisted.mail.imap4:splitQuoted", "twisted.python.compat:_matchingString"]
 BOUNDS = {"quick": {"n1": 3, "na": 2, "nb": 1}, "thorough": {"n1": 4, "na": 3, "nb": 2}}
 B = {}
-BOUNDS_TEXT = ("one-leaf shapes [A], [[A]], [[[A]]], [[], A]: leaf = any byte string of <= n1 bytes / None / int 0..31; "
+BOUNDS_TEXT = ("one-leaf shapes [A], [[A]], [[[A]]], [[], A]: leaf = any byte string of <= n1 bytes / None / int 0..11; "
                "two-leaf shapes [A,B], [[A,B]], [A,[B]], [[A],B], [[A],[B]], [A,[],B]: A any byte string of "
-               "1..na bytes, B any byte string of <= nb bytes / None / int 0..31")
+               "1..na bytes, B any byte string of <= nb bytes / None / int 0..11")
 OUTSIDE = ["more than two leaves, nesting deeper than 3, byte strings longer than the bound",
            "strings longer than 1000 bytes (sent as literals because of their length only)",
            "negative or large integers (only their decimal text matters to the code)",
@@ -33,15 +33,18 @@ OUTSIDE = ["more than two leaves, nesting deeper than 3, byte strings longer tha
            "string (no CR/LF in it) is excluded from the passing claim"]
 ASSUMPTIONS = ["LBytes reproduces bytes for the operations used (lbytes.selftest on every run); lifted and real "
                "functions agree on the concrete vectors below (taken from test_imap.py and the property's families)",
-               "str(int) inside collapseNestedLists is case split over 0..31"]
+               "str(int) inside collapseNestedLists is case split over 0..11"]
 EXPLANATION = ("lifted real serializer + parser; shape / leaf kind menus case split, leaf bytes symbolic; "
                "result compared with the input structure")
+
+
+lbytes.FAST_SCAN = True     # strip()/find() keep concrete indices (the serialised text has a concrete length)
 
 
 def _l_str(x="", *a):
     """the call str(...) in lifted code: a symbolic small int becomes one path per value"""
     if isinstance(x, int) and not isinstance(x, bool) and not lbytes._is_conc(x):
-        for k in range(0, 32):
+        for k in range(0, 12):
             if x == k:
                 return str(k)
     return lbytes.l_str(x, *a)
@@ -57,9 +60,6 @@ L = lift.lift("twisted.mail.imap4",
 from twisted.mail import imap4 as _real  # noqa: E402
 MismatchedNesting = _real.MismatchedNesting
 MismatchedQuoting = _real.MismatchedQuoting
-
-_WS = " \t\n\x0b\x0c\r"
-
 
 def _menu(n, v):
     """symbolic menu value -> one path per entry"""
@@ -79,7 +79,7 @@ def _leaf(kind, text, num):
 
 
 def _dec(num):
-    for k in range(0, 32):
+    for k in range(0, 12):
         if num == k:
             return str(k)
     return str(num)
@@ -139,7 +139,7 @@ def _shape2(shape, va, ea, vb, eb):
 
 def one(shape: int, kind: int, a: str, num: int) -> bool:
     """
-    pre: 0 <= shape < _SHAPES1 and 0 <= kind <= 2 and 0 <= num <= 31
+    pre: 0 <= shape < _SHAPES1 and 0 <= kind <= 2 and 0 <= num <= 11
     pre: len(a) <= B['n1'] and all(ord(c) < 256 for c in a)
     pre: kind == 0 or len(a) == 0
     post: _
@@ -155,7 +155,7 @@ def one(shape: int, kind: int, a: str, num: int) -> bool:
 
 def two(shape: int, a: str, kind: int, b_: str, num: int) -> bool:
     """
-    pre: 0 <= shape < _SHAPES2 and 0 <= kind <= 2 and 0 <= num <= 31
+    pre: 0 <= shape < _SHAPES2 and 0 <= kind <= 2 and 0 <= num <= 11
     pre: 1 <= len(a) <= B['na'] and len(b_) <= B['nb'] and all(ord(c) < 256 for c in a + b_)
     pre: kind == 0 or len(b_) == 0
     post: _
@@ -209,9 +209,9 @@ VECTORS = {
     "one": [(0, 0, "a", 0), (0, 0, "", 0), (1, 0, "NIL", 0), (0, 1, "", 0), (0, 2, "", 17), (2, 0, 'a"b', 0),
             (0, 0, "a\nb", 0), (0, 0, "a\rb", 0), (3, 0, "(", 0), (1, 0, "{3}", 0), (0, 0, " ", 0), (0, 0, "\x00\xff", 0),
             (1, 0, "a\n", 0), (0, 0, ")", 0), (0, 0, "]", 0), (0, 0, "[", 0), (3, 2, "", 0), (2, 1, "", 0),
-            (1, 0, "\\\n", 0), (0, 0, "{1", 0), (0, 0, "}", 0), (0, 0, "\t", 0)],
+            (0, 0, "\\\n", 0), (3, 0, "\n", 0), (0, 0, "a\r", 0), (0, 0, "{1", 0), (0, 0, "}", 0), (0, 0, "\t", 0)],
     "two": [(0, "a", 0, "b", 0), (1, "a b", 1, "", 0), (2, '"', 0, '"', 0), (3, "\n", 2, "", 5), (4, "(", 0, ")", 0),
-            (5, "NIL", 1, "", 0), (0, "\n", 0, "x", 0), (0, "a\n", 1, "", 0), (1, "{1}", 0, "\r", 0),
+            (5, "NIL", 1, "", 0), (0, "\n", 0, "x", 0), (0, "a\n", 1, "", 0), (0, "{1}", 0, "\r", 0), (5, "x", 0, " \n", 0),
             (1, "x", 0, "\n", 0), (0, " ", 0, "", 0), (2, "\r\n", 0, "\n", 0)],
 }
 
